@@ -17,7 +17,9 @@ _DOMAINS = (
     "3000 values beyond the maximum and around 2^31/2^32, plus the 4-byte domain; BTI/HTI/VTI: every second of the day "
     "plus the generic domain; BTM/HTM/VTM/TTM/TTH/TTQ/BDY/HDY: all patterns; STR/NTS/HEX/IGN: every string of length "
     "1..4 over a 12-byte alphabet, lengths 5..31 and '*' with 6 pattern families; value lists on 32 type/list "
-    "combinations; TEM_P in master and slave data: all 65536; KNX 16-bit float: all 65536."
+    "combinations (word names and number-like names); configured ranges (from-to with every sign combination of "
+    "the bounds, signed and unsigned, with and without divisor) on 49 type/divisor/range combinations; TEM_P in master "
+    "and slave data: all 65536; KNX 16-bit float: all 65536."
 )
 
 CHECKS["C05"] = {
@@ -65,7 +67,10 @@ CHECKS["C06"] = {
     "level_text": "plain exhaustive enumeration of finite input domains with a differential oracle on the real code: "
                   "(a) every enumerated raw pattern that decodes is encoded again with the same definition and compared "
                   "on the owned bits, (b) every text of a bounded grammar that encodes is decoded and encoded again "
-                  "(fixed point), (c) all 65536 KNX 16-bit floats are converted there and back",
+                  "(fixed point); the bytes of a successful encode are additionally judged by the reference: a pattern the type "
+                  "definition calls invalid, zero bytes, or bytes differing from the reference encoder (plain integers, "
+                  "complete dates/times incl. nearest truncated time, hex pairs) are violations; (c) all 65536 KNX 16-bit "
+                  "floats are converted there and back",
     "level_note": "no hand-written expected values except the canonical replacement pattern, the calendar weekday and "
                   "the input classification taken from the reference codec (classes the statement does not call "
                   "lossless are not judged: non-printable strings, partial nulls, values outside a value list, "
